@@ -44,7 +44,7 @@ def gen_one(r, i, tier):
     dyadic = (i % 4 != 3)
     # non-dyadic configurations scale quantities up to 1e16, where the batch formulas for mean and
     # variance cancel catastrophically: Average/Deviate are exercised on well-conditioned data only
-    g = gen.G(r, dyadic=dyadic, counts_tsq=False, max_depth=3 if tier == "quick" else 4,
+    g = gen.G(r, dyadic=dyadic, counts_tsq=False, max_depth=3 if tier == "quick" else 4, vecbags=False,
               leaves=None if dyadic else ["Count", "Sum", "Minimize", "Maximize", "Bag"])
     for _ in range(50):
         spec = g.spec(kind=r.choice(gen.NODES + gen.NODES + gen.LEAVES[1:]))
